@@ -268,4 +268,5 @@ def queries():
                             defs=["-DIMPL=%d" % impl, "-DECONST=%s" % lit, "-DZP=%d" % zp, "-DZQ=%d" % zq, "-DBR_MAX_RSA_SIZE=128"] + refused, unwind=70, timeout=400,
                             checks=False, flags=["--no-standard-checks"], tier="quick" if nm in ("65537", "c0000001", "fffffffb") and (zp, zq) == (0, 0) and impl == 31 else "thorough",
                             desc="br_rsa_i%d_compute_privexp: d == e^-1 mod (p-1)(q-1), d < phi, for e = %s and two concrete 40-bit factors (= 3 mod 4); all inputs concrete (a symbolic e has no verdict in 280 s); functional claim only (cbmc's pointer/bounds instrumentation is off for these queries: 150k extra conditions)" % (impl, lit)))
+                qs[-1].heavy = True   # ~16 GB of symex memory each: the driver runs at most three at a time
     return qs
